@@ -2,17 +2,18 @@
 # confirm a seeded change in its scratch worktree: compiles, test suite unchanged, demo fails with / passes without.
 # usage: confirm_mutant.sh <worktree> <k> <seed-id> <property> "<needs>"
 set -u
-WT=$1; K=$2; ID=$3; PROP=$4; NEEDS=$5
+WT=$1; K=$2; ID=$3; PROP=$4; NEEDS=$5; EXTRA=${6:-}
+if [ "$EXTRA" = "cfg" ]; then export RUSTFLAGS="--cfg meshless_voro_verif"; EXTRA=""; fi
 cd $WT || exit 2
 export CARGO_TARGET_DIR=$WT/target CARGO_NET_OFFLINE=true
 git checkout -q -- src 2>/dev/null
 mkdir -p examples; cp out/demo_$K.rs examples/demo_$K.rs
-cargo run -q --offline --example demo_$K >/dev/null 2>&1; PRISTINE=$?
+cargo run -q --offline $EXTRA --example demo_$K >/dev/null 2>&1; PRISTINE=$?
 git apply out/patch_$K.diff || { echo "patch does not apply"; exit 2; }
 cargo build -q --offline 2>/dev/null; BUILD=$?
 T=$(cargo test --offline --no-fail-fast 2>&1 | grep -E "^test result" | tr '\n' ' ')
 FAILED=$(cargo test --offline --no-fail-fast 2>&1 | grep -E "^test .* FAILED" | tr '\n' ' ')
-cargo run -q --offline --example demo_$K >/dev/null 2>&1; PATCHED=$?
+cargo run -q --offline $EXTRA --example demo_$K >/dev/null 2>&1; PATCHED=$?
 git checkout -q -- src
 echo "$ID: build=$BUILD demo pristine=$PRISTINE patched=$PATCHED"
 echo "   tests: $T"
